@@ -5,9 +5,10 @@ From LZ4V Require Import Base GenBlock BlockFormat CompressFast CompressFastTabl
 Theorem C01_fast : forall st, roundtrip_stmt (fun src dstlen => compress_fast_list src st dstlen).
 Proof. exact fast_roundtrip. Qed.
 Print Assumptions C01_fast.
-(* HC compressor, depth 0 (= unlimited within the window) and every depth up to 131072, which
-   covers the nine named levels; see C01_hc_partial_note in DESIGN.md for depths above *)
-Theorem C01_hc : forall depth, 0 <= depth <= 131072 -> roundtrip_stmt (fun src dstlen => compress_hc_list src depth dstlen).
+(* HC compressor, every search depth (0 = unlimited within the window); termination of the chain
+   walk does not depend on the depth (CompressHCTermination.hc_nohang_all: the candidates strictly
+   decrease inside the 64 KiB window) *)
+Theorem C01_hc : forall depth, 0 <= depth -> roundtrip_stmt (fun src dstlen => compress_hc_list src depth dstlen).
 Proof. exact hc_roundtrip. Qed.
 Print Assumptions C01_hc.
 (* any reachable HC object behaves as a fresh one *)
